@@ -31,7 +31,7 @@ pub struct C03 {
     ctx: Lazy<Context>,
 }
 
-const NFORMS: usize = 13;
+const NFORMS: usize = 14;
 const KILO: i64 = 1000;
 
 fn rat_text(r: &Rat) -> String {
@@ -74,6 +74,7 @@ fn form(f: usize, t: &U, u: &U) -> (String, Rat, Dims) {
             &tv * &tv / uv,
             dims_mul(&dims_pow(&t.dims, 2), &u.dims, -1),
         ),
+        13 => (format!("{}^1", tn), tv, t.dims.clone()),
         _ => (
             format!("(2 {})^2", tn),
             rat(4, 1) * &tv * &tv,
@@ -125,11 +126,11 @@ impl C03 {
             })
             .collect();
         let mut vals = vec![("1".to_string(), rat(1, 1)), ("(-7|3)".to_string(), rat(-7, 3))];
-        let mut src_forms = vec![0, 6, 7];
+        let mut src_forms = vec![0, 6, 7, 13];
         if tier == "thorough" {
             vals.push(("1e-30".to_string(), pow_rat(&rat(10, 1), -30).unwrap()));
             vals.push(("1e40".to_string(), pow_rat(&rat(10, 1), 40).unwrap()));
-            src_forms = vec![0, 4, 5, 6, 7];
+            src_forms = vec![0, 4, 5, 6, 7, 13];
         }
         let mut fams = Fams::default();
         fams.add("conformable-pairs", vec![pairs.len() as u64]);
